@@ -185,6 +185,20 @@ func c04MySQL(t *testing.T, plan *kernel.Plan, keepLog bool) *kernel.Result {
 			}
 			script = append(script, st)
 		}
+		// consistent tokenization: the owner finds a row by the value of a tokenized column, bound as the second
+		// parameter after a value for an ordinary column
+		for k, r := range rows {
+			if k >= 2 {
+				break
+			}
+			for ci := range cols {
+				if cols[ci].Token == "" {
+					continue
+				}
+				script = append(script, Stmt{SQL: fmt.Sprintf("SELECT id FROM t1 WHERE plain = ? AND %s = ?", cols[ci].Name), Extended: true,
+					Args: []interface{}{r.plain, myArg(&cols[ci], r.vals[ci], false)}, Tag: fmt.Sprintf("find:%d:%d", r.id, ci)})
+			}
+		}
 		run := pw.RunSession(owner, script)
 		if w.Res.Cut {
 			return
@@ -283,6 +297,17 @@ func c04MySQL(t *testing.T, plan *kernel.Plan, keepLog bool) *kernel.Result {
 			if st.Tag == "plain-select" {
 				if len(res.Rows) != 1 || string(res.Rows[0][1]) != "MKnote-not-protected" {
 					w.Violate("C04", "uncovered-column-unchanged", "mysql/t2", fmt.Sprintf("unconfigured table read back as %q", res.Rows))
+				}
+			}
+			if strings.HasPrefix(st.Tag, "find:") {
+				var id, ci int
+				fmt.Sscanf(st.Tag, "find:%d:%d", &id, &ci)
+				found := false
+				for _, r := range res.Rows {
+					found = found || (len(r) == 1 && string(r[0]) == strconv.Itoa(id))
+				}
+				if res.Err != "" || !found {
+					w.Violate("C04", "owner-finds-row-by-tokenized-value", "mysql/"+cols[ci].describe(), fmt.Sprintf("%s with %v: err=%q rows=%q", st.SQL, st.Args, res.Err, res.Rows))
 				}
 			}
 			if !strings.HasPrefix(st.Tag, "final:") {
